@@ -1,10 +1,35 @@
 ------------------------------ MODULE OptionsMC ------------------------------
-(* Small-constant instance of Options.tla for exhaustive checking.            *)
+(* Small-constant instances of Options.tla for exhaustive checking:           *)
+(*   A  one thread, 2 options x 2 values, blocks nested 3 deep  (block laws)  *)
+(*   B  two threads, 2 options x 2 values, one block each       (isolation)   *)
+(*   C  three threads, 1 option x 2 values, nesting 2/1/1       (isolation)   *)
+(*   T* thorough-tier variants with larger constants                          *)
+(* every configuration passes maps of up to MaxMap entries over the option    *)
+(* names + one unknown name and the values + one invalid value.               *)
 EXTENDS Options
-CONSTANTS t1, t2, t3, o1, o2, o3, v0, v1, v2
+CONSTANTS t1, t2, t3, o1, o2, o3, v0, v1, v2,
+          MaxMap              \* bound on the number of options passed at once
+
+Maps == UNION {[D -> AllVals] : D \in {S \in SUBSET Names : Cardinality(S) <= MaxMap}}
+
+DoSpawn == \E t \in Threads : Spawn(t)
+DoDie   == \E t \in Threads : Die(t)
+DoCall  == \E t \in Threads, m \in Maps : Call(t, m)
+DoSet   == \E t \in Threads, m \in Maps : SetOptions(t, m)
+DoEnter == \E t \in Threads, m \in Maps : EnterWith(t, m)
+DoExit  == \E t \in Threads, how \in {"normal", "exception"} : ExitWith(t, how)
+
+Next == DoSpawn \/ DoDie \/ DoCall \/ DoSet \/ DoEnter \/ DoExit
+Spec == Init /\ [][Next]_vars
+
+Def1  == (o1 :> v0)
 Def2  == (o1 :> v0) @@ (o2 :> v0)
 Def3  == (o1 :> v0) @@ (o2 :> v0) @@ (o3 :> v0)
-Nest2 == (t1 :> 2) @@ (t2 :> 1)
-Nest3 == (t1 :> 2) @@ (t2 :> 1) @@ (t3 :> 1)
-NestT == (t1 :> 3) @@ (t2 :> 2)
+NestA == (t1 :> 3)
+NestB == (t1 :> 1) @@ (t2 :> 1)
+NestC == (t1 :> 2) @@ (t2 :> 1) @@ (t3 :> 1)
+NestS == (t1 :> 3) @@ (t2 :> 3) @@ (t3 :> 3)
+NestTA == (t1 :> 3)
+NestTB == (t1 :> 2) @@ (t2 :> 1)
+NestTC == (t1 :> 2) @@ (t2 :> 2) @@ (t3 :> 1)
 =============================================================================
